@@ -7,7 +7,7 @@ set -u
 cd /verif || exit 2
 EXPECT="
 C37-1:C37:caught C37-2:C37:caught C37-3:C37:caught C37-4:C37:caught
-C01-1:C01:caught C01-2:C01:missed C01-3:C01:caught C01-4:C01:caught
+C01-1:C01:caught C01-2:C01:caught C01-3:C01:caught C01-4:C01:caught
 C02-1:C02:missed C02-2:C02:missed C02-3:C02:missed C02-4:C02:caught
 C05-1:C05:caught C05-2:C05:missed C05-3:C05:missed C05-4:C05:missed
 C06-1:C06:caught C06-2:C06:caught C06-3:C06:missed C06-4:C06:caught
